@@ -214,6 +214,13 @@ static void run_config(long idx, int workers, int clients, int nreq, int shutdow
         ep->serveThreaded();
         port = ep->getPort();
     }
+    {   // connections for every worker at once, the moment the endpoint is up: the workers have only just entered their loops
+        std::vector<std::unique_ptr<lv::Conn>> early; for (int k = 0; k < 2 * workers + 1; k++) { early.emplace_back(new lv::Conn()); if (!early.back()->open_to(port)) { early.pop_back(); continue; } early.back()->send_all("GET /a/early" + std::to_string(k) + " HTTP/1.1\r\nHost: x\r\nConnection: keep-alive\r\nContent-Length: 0\r\n\r\n"); }
+        for (size_t k = 0; k < early.size(); k++) { std::string b; lv::HttpMsg m = lv::read_response(*early[k], b, 0, (int)(10000 * lv::load_factor()));
+            if (m.complete && !(m.status == 200 && m.body.rfind("T[GET /a/early", 0) == 0)) viol("c09:wrong-response:tag", "a connection opened the moment the endpoint was up got status " + std::to_string(m.status) + " body '" + m.body.substr(0, 60) + "'", Json().str("config", cfg).done());
+            else if (!m.complete && shutdownMode != 4) viol("c09:no-response", "a connection opened the moment the endpoint was up got no response: " + m.error, Json().str("config", cfg).done()); }
+        count("early_connections", (long)early.size());
+    }
     std::vector<std::thread> th; std::vector<ClientStats> stats((size_t)clients);
     bool tolerate = shutdownMode >= 2 && shutdownMode != 4 && shutdownMode != 7 && shutdownMode != 10;   // (mode 6: a keep-alive client may itself be timed out under load)
     std::vector<std::unique_ptr<lv::Conn>> idleConns;
